@@ -79,7 +79,9 @@ class Session(BusSession):
                 f.write('[D-BUS Service]\nName=%s\nExec=%s %s %s\n' % (name.decode(), stub, self.logdir, name.decode()))
         with open(os.path.join(d, S3.decode() + '.service'), 'w') as f:
             f.write('[D-BUS Service]\nName=%s\nExec=%s/does-not-exist\n' % (S3.decode(), self.logdir))
-        return B.make_config(servicedirs=[d], limits={'service_start_timeout': TIMEOUT})
+        # held messages are subject to policy when they are finally delivered: Forbidden is refused at the recipient
+        pol = B.PERMISSIVE_POLICY.replace('</policy>', '  <deny receive_interface="svc.i" receive_member="Forbidden"/>\n  </policy>')
+        return B.make_config(policy=pol, servicedirs=[d], limits={'service_start_timeout': TIMEOUT})
 
     # ---- alphabet ---------------------------------------------------------
     def ops(self):
@@ -91,6 +93,7 @@ class Session(BusSession):
             for i in names:
                 ops.append(['call', l, i])
                 ops.append(['start', l, i])
+            ops.append(['fcall', l, 0])      # a call the service's receive policy refuses
             ops.append(['call', l, 2])
             ops.append(['disc', l])
         for i in names:
@@ -138,6 +141,8 @@ class Session(BusSession):
             if ok:
                 return True
             time.sleep(0.004)
+        if os.environ.get('VERIF_DEBUG_SLOW'):
+            open(os.environ['VERIF_DEBUG_SLOW'], 'a').write('settle timed out: gone=%r started=%r closed=%r key=%s\n' % (want_gone, want_started, want_closed, self.impl_key()[:300]))
         return False
 
     def waiters_expect_error(self, name, want):
@@ -202,7 +207,7 @@ class Session(BusSession):
         kind = op[0]
         desc = repr(op)
         want = {}
-        if kind in ('call', 'start'):
+        if kind in ('call', 'start', 'fcall'):
             l, i = op[1], op[2]
             name = (S1, S2, S3)[i]
             c = self.slots[l]
@@ -212,12 +217,18 @@ class Session(BusSession):
                 self.tok += 1
                 tok = b'K%d' % self.tok
                 m = R.method_call(s, name, '/svc', 'svc.i', 'Work', [R.S(tok)], flags=1)
+            elif kind == 'fcall':
+                self.tok += 1
+                tok = b'F%d' % self.tok
+                m = R.method_call(s, name, '/svc', 'svc.i', 'Forbidden', [R.S(tok)])
             else:
                 m = R.bus_call(s, 'StartServiceByName', [R.S(name), R.U(0)])
             self.send(l, m)
             if owned is not None:
                 if kind == 'call':
                     want.setdefault(owned, []).append(('tok', tok))
+                elif kind == 'fcall':
+                    want.setdefault(l, []).append(('err', s))        # refused by the recipient's policy: one error, no delivery
                 else:
                     want.setdefault(l, []).append(('ret', s, (2,)))       # DBUS_START_REPLY_ALREADY_RUNNING
                 self.hit(kind + '-owned')
@@ -228,7 +239,7 @@ class Session(BusSession):
                 self.hit(kind + '-spawn-fails')
             else:
                 first = name not in self.pending
-                self.pending.setdefault(name, []).append((kind, l, s, tok if kind == 'call' else None))
+                self.pending.setdefault(name, []).append((kind, l, s, tok if kind in ('call', 'fcall') else None))
                 if first:
                     self.started[name] = self.started.get(name, 0) + 1
                     self.running[name] = True
@@ -247,7 +258,12 @@ class Session(BusSession):
             self.settle()
             if rep.args() == [1]:
                 for w in self.pending.pop(name, []):
-                    if w[0] == 'call':
+                    if w[0] == 'fcall':
+                        # refused when it is finally dispatched: its sender is told, and the messages held BEHIND it are unaffected
+                        if self.is_open(w[1]):
+                            want.setdefault(w[1], []).append(('err', w[2]))
+                        self.hit('held-message-refused-by-policy')
+                    elif w[0] == 'call':
                         if self.is_open(w[1]):
                             want.setdefault('T', []).append(('tok', w[3]))
                         else:
@@ -375,7 +391,7 @@ def helper_cases():
     cases = []
     for name in names:
         for present in ('dir1', 'dir2', 'both-good-first', 'both-bad-first', 'absent'):
-            for namekey in ('same', 'different', 'missing'):
+            for namekey in ('same', 'different', 'missing', 'prefix', 'longer', 'empty'):
                 for ex in EXEC_FORMS:
                     for user in (True, False):
                         for dup in (False, True):
@@ -399,7 +415,10 @@ def run_helper(workdir, case, idx):
     def content(good_name=True):
         lines = ['[D-BUS Service]']
         if namekey != 'missing':
-            nm = name if (namekey == 'same' and good_name) else b'com.example.Different'
+            # near misses of the requested name: only a file declaring EXACTLY that name is valid
+            nm = {'same': name, 'prefix': name[:-1], 'longer': name + b'x', 'empty': b''}.get(namekey, b'com.example.Different')
+            if not good_name:
+                nm = b'com.example.Different'
             lines.append('Name=' + nm.decode('latin-1'))
         if ex is not None:
             lines.append('Exec=%s %s %s' % (rec, outfile, ex) if ex != '' else 'Exec=')
